@@ -194,7 +194,7 @@ func (vc *VC) loopHead(fr *Frame, blk *ssa.BasicBlock, ins []*Edge, name string)
 		sc.atLoop = blk
 		sc.pos = loopPos(blk)
 		for _, c := range lc.Clauses {
-			if c.Kind != "invariant" || (hasTag(c.Tags, "T") && !vc.thorough) {
+			if c.Kind != "invariant" || (vc.skipT(c.Tags)) {
 				continue
 			}
 			f, err := sc.formula(c.E)
@@ -274,7 +274,7 @@ func (vc *VC) loopInvariants(fr *Frame, blk *ssa.BasicBlock, at *Node, e *Edge, 
 			continue
 		}
 		j++
-		if hasTag(c.Tags, "T") && !vc.thorough {
+		if vc.skipT(c.Tags) {
 			continue
 		}
 		kind := "inv-init"
